@@ -559,7 +559,29 @@ func (self *Value) updateByteLen(originLen int, address []int, isPacked bool, pa
 		// notice: when i == len(address) - 1, it do not change bytes length because it has been changed in replace function, just change previousType
 		pathType := path[i].t
 		addressPtr := address[i]
-		if previousType == proto.MESSAGE || (previousType == proto.LIST && isPacked) {
+		if previousType == proto.MAP {
+			// the length to update is that of the entry which holds the changed value, i.e. the one address[i+1] lies in:
+			// walk the entries from the first one (an inserted or deleted entry starts at address[i+1], so it is not met)
+			addressPtr = -1
+			for pos := address[i]; pos < address[i+1] && pos < self.l; {
+				buf := rt.BytesFrom(rt.AddPtr(self.v, uintptr(pos)), self.l-pos, self.l-pos)
+				_, tagOffset := protowire.ConsumeVarint(buf)
+				if tagOffset < 0 {
+					break
+				}
+				length, lenOffset := protowire.ConsumeVarint(buf[tagOffset:])
+				if lenOffset < 0 || int(length) < 0 {
+					break
+				}
+				end := pos + tagOffset + lenOffset + int(length)
+				if pos+tagOffset+lenOffset <= address[i+1] && address[i+1] < end {
+					addressPtr = pos
+					break
+				}
+				pos = end
+			}
+		}
+		if previousType == proto.MESSAGE || (previousType == proto.LIST && isPacked) || (previousType == proto.MAP && addressPtr >= 0) {
 			newBytes := NewBytesFromPool()
 			// tag
 			buf := rt.BytesFrom(rt.AddPtr(self.v, uintptr(addressPtr)), self.l-addressPtr, self.l-addressPtr)
@@ -661,6 +683,8 @@ func (self *Value) UnsetByPath(path ...Path) error {
 	if ret.IsError() {
 		return ret
 	}
+	// addresses are offsets in the root buffer, position is relative to the parent
+	position = int(uintptr(ret.v) - uintptr(self.v))
 
 	originLen := len(self.raw())
 	if err := self.replace(ret, Node{t: ret.t}); err != nil {
